@@ -288,6 +288,21 @@ def faces_admissible(disc, mname):
         return True
 
 
+def exotic_layout(f, how):
+    """the same field values in arrays with another MEMORY LAYOUT (what a user gets from a transposed file, a slice of a larger buffer,
+    or the library's own expansion of one number per variable): how = 1 Fortran-ordered vector components, 2 strided views (every second
+    element of a buffer), 3 both.  Values, shapes and dtypes are unchanged"""
+    for i, d in enumerate(f.data):
+        d = np.asarray(d)
+        if d.ndim == 2 and how in (1, 3):
+            f.data[i] = np.asfortranarray(d)
+        elif d.ndim == 1 and how in (2, 3) and d.dtype.kind == "f":
+            buf = np.zeros(2 * d.size + 1, dtype=d.dtype)
+            buf[1::2] = d
+            f.data[i] = buf[1::2]
+    return f
+
+
 def refused_integer_field(exc):
     """the unchanged library stops the time integration of an integer-typed field with numpy's casting error (add_res does
     `data += dt*residual`): loud, outside the properties -- such a case is skipped; a run that goes through is judged"""
@@ -528,6 +543,8 @@ def scenario1d(rng, models=MODELS1D, bc=None, recons=ALL_RECONS, meshkinds=MESH_
         s.field = s.disc.fdata_fromprim([np.array(p) for p in s.prim])         # the discretisation's own constructor (same field)
     else:
         s.field = fdata_prim(s.model, s.mesh, s.prim)
+    if rng.random() < 0.08:
+        exotic_layout(s.field, 2)          # strided views instead of contiguous arrays (same values)
     return s
 
 
